@@ -172,6 +172,9 @@ def accepted_sig(kind, detail, pos, route) -> str:
     if route != "package" and kind in ("unknown-key", "mistyped") and (
             len(pos["path"]) == 1 or pos["path"][0] != "components"):
         return "document-sections-not-validated-when-replicating@" + route
+    # one root cause: the type conversion uses bool(<str>), which is True for every non-empty string
+    if kind == "mistyped" and pos["cls"] == "bool" and detail.endswith("<-str"):
+        return "non-boolean-string-accepted-for-bool-option"
     return "accepted:%s:%s@%s" % (kind, detail, route)
 
 
